@@ -5,11 +5,12 @@ Hessians, molecule-attached vectors and their nuclear derivatives; 3x3 blocking 
   qcelemental.util.blockwise_expand/contract on the same inputs.  Stream "exact": the 24 proper rotations
   with dyadic entries (the cube group) and data in multiples of 1/8, so every binary64 operation of the
   implementation is exact and results are compared with tolerance 0.  Stream "rational": proper rotations
-  built from integer quaternions (entries k/N rounded to binary64; the model is given the exact value of
-  the same doubles) compared with absolute tolerance 1e-10.  Index-error behaviour of ill-formed atom maps
+  built from integer quaternions (entries k/N: the model is given the exact rationals, the implementation their
+  nearest doubles) compared with absolute tolerance 1e-10.  Index-error behaviour of ill-formed atom maps
   is compared as well.
 * property oracle on the implementation: analytic pair energies (Coulomb-like c/r, harmonic k (r-r0)^2)
-  with random couplings, closed-form gradients and Hessians; the couplings are carried along the atom
+  with random couplings plus, from 3 atoms on, three-body terms c r_ij r_jk (their off-diagonal 3x3 Hessian
+  blocks are not symmetric, unlike those of pair potentials), closed-form gradients and Hessians; the couplings are carried along the atom
   map; energy, gradient and Hessian at the aligned geometry must equal the aligned quantities; a
   translation-invariant, rotation-covariant vector field with closed-form Jacobian for align_vector /
   align_vector_gradient (recipes without mirror); per-atom arrays; inverse recipe; blocking round trip.
@@ -106,7 +107,8 @@ def gen_mill(rng, n, exact, illformed=False):
             q = tuple(rng.randint(-4, 4) for _ in range(4))
             if any(q):
                 break
-    rot = [[float(x) for x in row] for row in quat_to_rot_fr(q)]
+    rot_fr = quat_to_rot_fr(q)
+    rot = [[float(x) for x in row] for row in rot_fr]
     shift = [eighth(rng, -10, 10) for _ in range(3)]
     p = rand_perm(rng, n)
     if illformed:
@@ -119,7 +121,8 @@ def gen_mill(rng, n, exact, illformed=False):
             p[rng.randrange(n)] = n + rng.randrange(3)
         else:
             p[rng.randrange(n)] = rng.randrange(n)
-    return {"shift": shift, "rotation": rot, "atommap": p, "mirror": rng.random() < 0.5}
+    return {"shift": shift, "rotation": rot, "atommap": p, "mirror": rng.random() < 0.5,
+            "rotation_exact": [[[x.numerator, x.denominator] for x in row] for row in rot_fr]}
 
 
 def mk_mill(md):
@@ -140,8 +143,10 @@ def cvec(v):
 
 
 def cmill(md):
-    r = md["rotation"]
-    return "(Build_mill Q %s (%s, %s, %s) %s %s)" % (cvec(md["shift"]), cvec(r[0]), cvec(r[1]), cvec(r[2]),
+    # the model is given the exact rational rotation k/N; the implementation its nearest doubles
+    r = [["%s" % cq(Fraction(a, b)) for a, b in row] for row in md["rotation_exact"]]
+    cv = lambda row: "(" + ", ".join(row) + ")"
+    return "(Build_mill Q %s (%s, %s, %s) %s %s)" % (cvec(md["shift"]), cv(r[0]), cv(r[1]), cv(r[2]),
                                                      clist(md["atommap"], cnat), cbool(md["mirror"]))
 
 
@@ -269,6 +274,48 @@ def pair_energy(kind, x, c, r0):
     return E, g, H
 
 
+def three_body(x, triples):
+    """E = sum_t c_t r_ij r_jk over the listed triples (i,j,k,c): a rigid-motion invariant energy whose
+    off-diagonal 3x3 Hessian blocks are not symmetric (pair potentials only have symmetric blocks).
+    Closed form by the product rule from the gradient/Hessian of a single distance."""
+    n = len(x)
+    E = 0.0
+    g = np.zeros(3 * n)
+    H = np.zeros((3 * n, 3 * n))
+
+    def dist(i, j):
+        d = x[i] - x[j]
+        r = math.sqrt(float(d @ d))
+        u = d / r
+        gg = np.zeros(3 * n)
+        gg[3 * i:3 * i + 3] = u
+        gg[3 * j:3 * j + 3] = -u
+        hb = (np.eye(3) - np.outer(u, u)) / r
+        hh = np.zeros((3 * n, 3 * n))
+        si, sj = slice(3 * i, 3 * i + 3), slice(3 * j, 3 * j + 3)
+        hh[si, si] = hb
+        hh[sj, sj] = hb
+        hh[si, sj] = -hb
+        hh[sj, si] = -hb
+        return r, gg, hh
+
+    for (i, j, k, c) in triples:
+        a, ga, ha = dist(int(i), int(j))
+        b, gb, hb_ = dist(int(j), int(k))
+        E += c * a * b
+        g += c * (a * gb + b * ga)
+        H += c * (a * hb_ + b * ha + np.outer(ga, gb) + np.outer(gb, ga))
+    return E, g.reshape(n, 3), H
+
+
+def total_energy(case, x, c, r0, triples):
+    E, g, H = pair_energy(case["energy"], x, c, r0)
+    if triples:
+        E3, g3, H3 = three_body(x, triples)
+        E, g, H = E + E3, g + g3, H + H3
+    return E, g, H
+
+
 def vector_field(fk, x, w):
     """mu = sum_{i>j} w_ij f(r_ij) (x_i - x_j), w antisymmetric; f = 1/r^3 or r^2.  Jacobian J[a, 3k+b]."""
     n = len(x)
@@ -336,7 +383,12 @@ def gen_oracle_case(rng, mill=None, n=None):
     r0 = sym(np.array([[rng.uniform(0.5, 3) for _ in range(n)] for _ in range(n)]))
     w = np.array([[rng.uniform(-2, 2) for _ in range(n)] for _ in range(n)])
     w = (w - w.T) / 2
-    return {"mill": mill, "x": x.tolist(), "c": c.tolist(), "r0": r0.tolist(), "w": w.tolist(),
+    triples = []
+    if n >= 3:
+        for _ in range(rng.randint(1, 5)):
+            i, j, k = rng.sample(range(n), 3)
+            triples.append([i, j, k, rng.uniform(-1, 1)])
+    return {"mill": mill, "x": x.tolist(), "c": c.tolist(), "r0": r0.tolist(), "w": w.tolist(), "triples": triples,
             "energy": rng.choice(["coulomb", "harmonic"]), "field": rng.choice(["invcube", "square"])}
 
 
@@ -378,8 +430,10 @@ def oracle(case):
             and list(sysres[3]) == p and list(sysres[4]) == [labels[k] for k in p]):
         return "align_system disagrees with align_coordinates/align_atoms", {}
     # invariant energy: value, gradient, Hessian at the aligned geometry
-    E, g, H = pair_energy(case["energy"], x, c, r0)
-    E2, g2, H2 = pair_energy(case["energy"], np.asarray(y, dtype=float), c[ix], r0[ix])
+    triples = [tuple(t) for t in case.get("triples", [])]
+    q = [p.index(k) for k in range(n)]          # atom k of x is atom q[k] of the aligned geometry
+    E, g, H = total_energy(case, x, c, r0, triples)
+    E2, g2, H2 = total_energy(case, np.asarray(y, dtype=float), c[ix], r0[ix], [(q[i], q[j], q[k], cc) for (i, j, k, cc) in triples])
     if not close(E, E2):
         return "energy not invariant under the recipe's rigid motion", {"E": E, "E_aligned": E2}
     ag = m.align_gradient(g)
@@ -393,7 +447,6 @@ def oracle(case):
     if not np.array_equal(blockwise_contract(blockwise_expand(H, (3, 3), False)), H):
         return "blockwise_contract(blockwise_expand(H)) != H", {}
     # inverse recipe: forward of (shift, rotation.T, inverse map, mirror) undoes reverse of the recipe
-    q = [p.index(k) for k in range(n)]
     minv = mk_mill({"shift": md["shift"], "rotation": R.T.tolist(), "atommap": q, "mirror": md["mirror"]})
     back = minv.align_coordinates(m.align_coordinates(x, reverse=True))
     if not close(back, x):
@@ -424,7 +477,7 @@ CORPUS_ORACLE = [
      "w": [[0.0, 1.0], [-1.0, 0.0]], "energy": "coulomb", "field": "invcube"},
     {"mill": {"shift": [0.0, 0.0, 0.0], "rotation": [[1.0, 0.0, 0.0], [0.0, 1.0, 0.0], [0.0, 0.0, 1.0]], "atommap": [2, 0, 1], "mirror": True},
      "x": [[0.0, 0.0, 0.0], [1.0, 0.5, -0.25], [-1.0, 2.0, 0.75]], "c": [[0.0, 1.5, -0.5], [1.5, 0.0, 2.0], [-0.5, 2.0, 0.0]],
-     "r0": [[1.0, 1.0, 2.0], [1.0, 1.0, 1.5], [2.0, 1.5, 1.0]], "w": [[0.0, 1.0, 0.5], [-1.0, 0.0, -2.0], [-0.5, 2.0, 0.0]],
+     "r0": [[1.0, 1.0, 2.0], [1.0, 1.0, 1.5], [2.0, 1.5, 1.0]], "w": [[0.0, 1.0, 0.5], [-1.0, 0.0, -2.0], [-0.5, 2.0, 0.0]], "triples": [[0, 1, 2, 0.75], [1, 2, 0, -0.5]],
      "energy": "harmonic", "field": "square"},
 ]
 
@@ -439,8 +492,8 @@ def correspond(ctx):
                  "oracle cases: analytic energies/vector fields at random geometries under random recipes; a case is "
                  "non-trivial if the recipe is not the identity (rotation != I or shift != 0 or atommap not sorted or mirror); "
                  "distinct = distinct inputs")
-    n_model = 9000 if ctx.thorough else 1350
-    n_oracle = 12000 if ctx.thorough else 700
+    n_model = 16000 if ctx.thorough else 1800
+    n_oracle = 30000 if ctx.thorough else 1000
     cases, terms = [], []
     for k in range(n_model):
         kind = KINDS[k % len(KINDS)]
@@ -469,7 +522,18 @@ def correspond(ctx):
             corr.failures.append({"stream": "oracle", "case": oc, "what": bad[0], "observed": bad[1]})
     corr.sample({"stream": "oracle", "case": {k: ocases[2][k] for k in ("mill", "energy", "field")}, "natoms": len(ocases[2]["x"])})
     ctx.log("evaluating the model")
-    bad, errors = coqrun.eval_bad_indices("C13", REQ, "", "check_case", terms, shard=60 if not ctx.thorough else 150, ty="mcase")
+    shard = 60 if not ctx.thorough else 150
+    bad, errors = coqrun.eval_bad_indices("C13", REQ, "", "check_case", terms, shard=shard, ty="mcase")
+    if errors:
+        # a shard that failed to run (e.g. killed on a loaded machine) is retried once, in smaller pieces
+        still = []
+        for k, e in errors:
+            sub = terms[k:k + shard]
+            bad2, err2 = coqrun.eval_bad_indices("C13retry", REQ, "", "check_case", sub, shard=15, ty="mcase")
+            bad.extend(k + b for b in bad2)
+            still.extend((k + k2, e2) for k2, e2 in err2)
+        bad.sort()
+        errors = still
     corr.errors.extend(f"shard {k}: {e}" for k, e in errors)
     for b in bad[:6]:
         c = cases[b]
@@ -484,6 +548,8 @@ def search(ctx, corr, reasons):
     """Look for a failing input of the property on the implementation: reuse the recipes of disagreeing
     cases (with fresh geometries/couplings) and a larger random sample."""
     found = []
+    if corr.failures:
+        return found          # the oracle stream already produced concrete failing inputs
     rng = ctx.rng
     tried = []
     for d in corr.disagreements:
@@ -503,7 +569,10 @@ def search(ctx, corr, reasons):
 
 
 def replay(ctx, rp):
-    case = rp["case"]
+    case = rp.get("case")
+    if not isinstance(case, dict) or "mill" not in case or "c" not in case:
+        return {"note": "this replay records broken proof obligations / a model disagreement without a failing input of the "
+                        "property; re-run ./check C13", "fails": True}
     bad = run_oracle(case)
     return {"case": case, "oracle": bad[0] if bad else None, "observed": bad[1] if bad else None, "fails": bool(bad)}
 
@@ -513,5 +582,28 @@ KNOWN = {}
 TECHNIQUE = ("Coq proofs over a hand-written Gallina model parametrised by a commutative ring (ring, induction, div/mod index "
              "lemmas; a Coquelicot derivative argument for the invariant-energy link) + differential correspondence at K = Q")
 DESIGN_REF = "DESIGN.md §6 C13"
-LEVEL_TEXT = "see evidence"
-LEVEL_NOTE = "see evidence"
+LEVEL_TEXT = (
+    "Machine-checked (Coq 8.16.1) theorems about Model/Mill.v, for every commutative ring K (Leibniz equality), every recipe, "
+    "every number of atoms: C13_coords_affine (align_coordinates x = L x + t), C13_gradient_is_L, C13_hessian_is_LHLt "
+    "(align_hessian H = L H L^T through blockwise_expand, the mirror sign flips, per-block rotation, np.ix_ and "
+    "blockwise_contract, with the same L as the gradient, mirror on or off), C13_L_orthogonal (orthogonal rotation + permutation "
+    "map => L L^T = I), C13_atoms_same_map, C13_line_transport (T(x+sv) = Tx + s Lv), C13_reverse_inverts_forward (inverse recipe), "
+    "C13_vector_is_rotT, C13_vector_gradient_covariant (J -> rot^T J L^T, no mirror), C13_blockwise_lossless (every tile count, "
+    "rectangular too), C13_wellformed_total; and over the reals (Coquelicot is_derive) the physics link "
+    "C13_invariant_energy_gradient_covariant / C13_invariant_energy_hessian_covariant: for ANY energy E' o T = E and any grad/hess "
+    "characterised by directional derivatives, grad'(Tx) = align_gradient(grad x) and hess'(Tx) = align_hessian(hess x); "
+    "C13_covariant_vector_jacobian: for ANY vector field with mu' o T = align_vector o mu (no mirror) the Jacobian at the aligned "
+    "geometry is align_vector_gradient of the original Jacobian. "
+    "The model is tied to models/align.py and util/np_blockwise.py on every run by differential execution at K = Q (exact on "
+    "dyadic data with the 24 cube-group rotations, 1e-10 on integer-quaternion rotations; index-error behaviour included) and the "
+    "property itself is evaluated on the implementation with analytic Coulomb/harmonic pair + three-body energies and a "
+    "covariant vector field with closed-form derivatives, mirror on/off, permutations of 1-10 atoms.")
+LEVEL_NOTE = (
+    "Trusted: Coq kernel + vm_compute; the hand-written model (block shape (3,3) only; non-negative atommap entries; numpy "
+    "dot/fancy-indexing/as_strided/reshape/swapaxes semantics transcribed, not verified); binary64 rounding of the implementation is "
+    "outside the model (exact rationals; compared exactly on dyadic inputs and within 1e-10 otherwise); the closed-form "
+    "derivatives of the oracle's test energies; harness/props/c13.py. Axioms: the algebraic theorems are closed under the global "
+    "context; the three calculus theorems (invariant-energy gradient/Hessian, vector Jacobian) depend on the standard Reals axioms (ClassicalDedekindReals.sig_forall_dec, "
+    "sig_not_dec, FunctionalExtensionality.functional_extensionality_dep) and nothing else. No theorem is _partial or _refuted "
+    "(the former finding C13-hessian-mirror was fixed in /repo by 88ca1d6; Example C13_ex_hessian_mirror_matters shows the mirror now "
+    "changes the aligned Hessian).")
